@@ -329,6 +329,7 @@ class TenSym(PySym):
         self.choices = parent.choices if parent is not None else None   # [bool, ...] answers for tests that depend on symbolic values (see run_paths)
         self.taken = parent.taken if parent is not None else []         # [(source of the test, answer)] in the order met
         self.classes = parent.classes if parent is not None else {}     # name -> ast.ClassDef: instantiated from their source (instantiate)
+        self.generic_eq = parent.generic_eq if parent is not None else False    # symbolic scalars compare equal iff they are the same expression
 
     # ------------------------------------------------------------------ helpers
     def lift(self, v):
@@ -759,6 +760,13 @@ class TenSym(PySym):
         if isinstance(n, ast.Compare) and len(n.ops) == 1:
             a, b = self.ex(n.left), self.ex(n.comparators[0])
             return self.compare(n.ops[0], a, b, n)
+        if isinstance(n, ast.Compare):
+            # a < b <= c: the conjunction of the adjacent comparisons, each operand evaluated once
+            vals_ = [self.ex(n.left)] + [self.ex(c_) for c_ in n.comparators]
+            for op_, a_, b_ in zip(n.ops, vals_, vals_[1:]):
+                if not self.truth(self.compare(op_, a_, b_, n)):
+                    return False
+            return True
         if isinstance(n, ast.BoolOp):
             is_and = isinstance(n.op, ast.And)
             for v in n.values:          # short-circuit like Python
@@ -901,6 +909,12 @@ class TenSym(PySym):
                 return a in b
             if isinstance(op, ast.NotIn):
                 return a not in b
+        if isinstance(op, (ast.Eq, ast.NotEq)) and getattr(self, "generic_eq", False):
+            # the rule's world is in general position: two scalars that are different expressions are different numbers
+            la_, lb_ = self.lift(a), self.lift(b)
+            if isinstance(la_, Rat) and isinstance(lb_, Rat):
+                same_ = (la_.n * lb_.d - lb_.n * la_.d).is_zero()
+                return same_ if isinstance(op, ast.Eq) else not same_
         raise Unsupported("comparison of symbolic values: %s" % (src(n) if n is not None else "?"))
 
     def truth(self, v):
@@ -1579,6 +1593,10 @@ class TenSym(PySym):
                 if all(rs_) or not any(rs_):
                     return rs_[0]       # decided on representative renderings of the formatted values (positive / negative / zero-or-small)
                 raise Unsupported("%s(%r, ..) depends on the value formatted: %r" % (cn, pat_, txt_))
+        if cn in ("sub", "re.sub") and len(n.args) == 3 and cn not in self.funcs:
+            a_ = [self.pyval(self.ex(x_)) for x_ in n.args]
+            if all(isinstance(x_, str) for x_ in a_):
+                return re.sub(a_[0], a_[1], a_[2])
         if cn in ("findall", "re.findall") and len(n.args) == 2 and cn not in self.funcs:
             pat_, txt_ = A(0), A(1)
             if isinstance(txt_, FStr):
@@ -1640,7 +1658,9 @@ class TenSym(PySym):
         if cn in ("list", "tuple") and len(n.args) == 1:
             items_ = self.iterate(A(0))
             return list(items_) if cn == "list" else tuple(items_)
-        if cn in ("int", "np.ceil", "np.floor", "math.ceil", "math.floor"):
+        if cn in ("int", "np.ceil", "np.floor", "math.ceil", "math.floor") or (cn in ("ceil", "floor") and cn not in self.funcs and cn not in self.env):
+            if cn in ("ceil", "floor"):
+                cn = "math." + cn
             v = A(0)
             if cn == "int" and isinstance(v, (str, TText)):
                 try:
@@ -1679,6 +1699,15 @@ class TenSym(PySym):
                 return any(c in getattr(v, "_isa", ()) for c in re.findall(r"\w+", tn))
             if isinstance(v, (int, slice)) and not isinstance(v, bool):
                 return ("int" in tn and isinstance(v, int)) or ("slice" in tn and isinstance(v, slice))
+            if isinstance(v, Rat):
+                # a scalar number of the world (a float unless it is a constant integer)
+                words_ = set(re.findall(r"\w+", tn))
+                c_ = v.const_value()
+                if c_ is not None and c_.denominator == 1 and words_ & {"int", "integer", "Integral"}:
+                    return True
+                return bool(words_ & {"float", "floating", "Number", "Real", "number", "float64", "float32"})
+            if isinstance(v, (TText, FStr)):
+                return "str" in tn or "bytes" in tn
             raise Unsupported("isinstance on a symbolic value")
         if cn in ("ensure_type",):
             return A(0)
